@@ -144,6 +144,12 @@ def shard(ctx):
 
 
 def replay(case):
+    if case.get('kind') == 'rendered-count':
+        from . import c18
+        run = do_count(case['blt'], case['options'], budget=60, render=True)
+        if not run.complete:
+            return []
+        return [('rendering-not-the-printed-form:' + k, m) for k, m, _ in c18.check(run)[0] if k.startswith(('report-', 'dump-', 'json-'))]
     rec = Recorder()
     rm = install_str(rec)
 
